@@ -203,7 +203,9 @@ func (self ValueList) Fields() (map[string]*Value, *VmInterrupt) {
 			if length == 0 {
 				return NewNoneOption(), nil
 			}
-			return NewValueOption((*self.Values)[length-1]), nil
+			// the option gets a cell of its own: a later `list[i] = v` must not change the value handed out here
+			last := *(*self.Values)[length-1]
+			return NewValueOption(&last), nil
 		}),
 		"to_json":        MarshalToString(self),
 		"to_json_indent": MarshalIndentToString(self),
